@@ -21,6 +21,49 @@ class C08Machine(StoreMachine):
         super().teardown()
 
 
+def big_store(ctx: core.Ctx, n: int):
+    """One store with more trajectories than any internal block size (index pages, caches): every identifier is looked
+    up in the writing session (before and after sync) and after reopening."""
+    from AEIC.trajectories import TrajectoryStore as TS
+
+    from . import _store_common as sc
+
+    ctx.case({'big_store': n})
+    ctx.label('big_store')
+    d = ctx.fresh_dir()
+    TS.active_in_thread = None
+    ids = [((i * 7919 + 13) % 100003) * 3 + 1 for i in range(n)]
+    descs = [{'n': 1 + i % 2, 'seed': i, 'name': None, 'flight_id': ids[i], 'extras': {}} for i in range(n)]
+    store = None
+    try:
+        store = TS.create(base_file=d / 'big.nc', cache_size_mb=1)
+        for dsc in descs:
+            store.add(sc.build_traj(dsc))
+        for stage in ('before_sync', 'after_sync', 'reopened'):
+            if stage == 'after_sync':
+                store.sync()
+            if stage == 'reopened':
+                store.close()
+                store = TS.open(base_file=d / 'big.nc', cache_size_mb=1)
+            for k, dsc in enumerate(descs):
+                ctx.evaluations += 1
+                t = store.get_flight(dsc['flight_id'])
+                if t is None or t.flight_id != dsc['flight_id'] or len(t) != dsc['n']:
+                    ctx.fail('get_flight.big_store', 'mismatch', 'TrajectoryStore.get_flight', stage,
+                             f'{stage}: id {dsc["flight_id"]} (position {k} of {n}, rank {sorted(ids).index(dsc["flight_id"])} in id order) '
+                             f'-> {None if t is None else (t.flight_id, len(t))}', {'big_store': n})
+            if store.get_flight(2) is not None:
+                ctx.fail('get_flight.big_store', 'mismatch', 'TrajectoryStore.get_flight', 'absent', f'{stage}: absent id found')
+        ctx.mark_nontrivial({'big_store': n})
+    finally:
+        if store is not None:
+            try:
+                store.close()
+            except Exception:  # noqa: BLE001
+                pass
+        TS.active_in_thread = None
+
+
 def run(ctx: core.Ctx):
     ctx.level = 'exploration'
     ctx.rule = (
@@ -35,7 +78,16 @@ def run(ctx: core.Ctx):
                        'lookup in a never-saved in-memory store is not claimed (no index exists yet): any non-wrong outcome accepted']
     core.run_machine(ctx, C08Machine, max_examples=ctx.n(30, 250), steps=40)
     core.run_given(ctx, plan_strategy(lookups=True, faults=True), lambda p: run_plan(C08Machine, ctx, p), ctx.n(50, 300), salt=20)
+    if ctx.shard == 0:
+        try:
+            big_store(ctx, 1025 + (ctx.seed * 37) % 300 if ctx.quick else 2049 + (ctx.seed * 37) % 500)
+        except core.Violation:
+            ctx.record_violation()
+        except core.AlreadyReported:
+            pass
 
 
 def replay(ctx: core.Ctx, case):
+    if isinstance(case, dict) and 'big_store' in case:
+        return big_store(ctx, int(case['big_store']))
     replay_any(C08Machine, ctx, case)
